@@ -90,6 +90,11 @@ func (sw *SprayAndWait) NotifyNewBundle(bp BundleDescriptor) {
 			remainingCopies: sw.l,
 		}
 
+		// a bundle of our own, which comes back from a peer, is never offered to this peer
+		if pnBlock, err := bp.MustBundle().ExtensionBlock(bpv7.ExtBlockTypePreviousNodeBlock); err == nil {
+			metadata.sent = append(metadata.sent, pnBlock.Value.(*bpv7.PreviousNodeBlock).Endpoint())
+		}
+
 		sw.dataMutex.Lock()
 		sw.bundleData[bp.Id] = metadata
 		sw.dataMutex.Unlock()
@@ -294,6 +299,12 @@ func (bs *BinarySpray) NotifyNewBundle(bp BundleDescriptor) {
 		metadata := sprayMetaData{
 			sent:            make([]bpv7.EndpointID, 0),
 			remainingCopies: bs.l,
+		}
+
+		// a bundle without a BinarySprayBlock might still be received from a peer, e.g., one using another routing
+		// algorithm; it is never offered to the peer it came from
+		if pnBlock, err := bp.MustBundle().ExtensionBlock(bpv7.ExtBlockTypePreviousNodeBlock); err == nil {
+			metadata.sent = append(metadata.sent, pnBlock.Value.(*bpv7.PreviousNodeBlock).Endpoint())
 		}
 
 		bs.dataMutex.Lock()
